@@ -19,6 +19,9 @@ func init() {
 func runC07(c *Ctx) {
 	g := c.Gen
 	rc := &router.RealmConfig{URI: "r1", AnonymousAuth: true, AllowDisclose: g.Chance(2, 3), EnableMetaKill: g.Chance(1, 3)}
+	if g.Chance(1, 4) {
+		rc.TopicEventHistoryConfigs = []*router.TopicEventHistoryConfig{{Topic: "t.a", MatchPolicy: "exact", Limit: 3}, {Topic: "t.", MatchPolicy: "prefix", Limit: 5}}
+	}
 	w, err := NewWorld(c.S, &router.Config{RealmConfigs: []*router.RealmConfig{rc}})
 	if err != nil {
 		c.Res.Tooling = "NewRouter: " + err.Error()
